@@ -34,6 +34,10 @@ type c09File struct {
 }
 
 func (r Rng) Address() string {
+	if r.Intn(8) == 0 {
+		// Internet addresses whose domain merely ENDS in winlink.org
+		return r.StringFrom("abcdefghijk", 1+r.Intn(6)) + []string{"@cms.winlink.org", "@NotWinlink.org", "@xwinlink.org", "@winlink.org.example.com"}[r.Intn(4)]
+	}
 	switch r.Intn(5) {
 	case 0:
 		return strings.ToLower(r.Callsign())
